@@ -1640,6 +1640,14 @@ def oracle_C10(run):
                                                for s_, v in sb['streams'].items()) else 'new-stream'
                 out.append(fail('outbound-streams-exceed-peer-limit', i, via=via, op=o))
                 continue
+        if r[0] == 'exc' and r[1] == 'TooManyStreamsError' and not is_recv(op) and \
+                not (o == 'send_headers' and (op.get('sid') not in sb['streams'] or sb['streams'][op['sid']][0] == 'RESERVED_LOCAL')):
+            # the limit is about streams becoming open, and the only call that makes one open is send_headers — on a new
+            # id, or on a reserved stream (which the library does not check: known finding D22): a promise reserves its
+            # stream (reserved streams do not count), everything else acts on streams that are open already
+            out.append(fail('limit-applied-to-a-call-that-opens-nothing', i, op=o, open=count(sb, own),
+                            limit=sb['remote'].get(3, [None])[0]))
+            continue
         if o == 'send_headers' and client[c] and op['sid'] not in sb['streams'] and sb['state'] != 'CLOSED':
             nb = count(sb, own)
             lim = sb['remote'].get(3, [2**32 + 1])[0]
@@ -2205,6 +2213,17 @@ def oracle_C27(run):
             break
         if not is_recv(op):
             continue
+        # the stream table: a delivery leaves no stream behind that is still idle (such a record is neither open — it
+        # escapes MAX_CONCURRENT_STREAMS — nor closed — `_open_streams` never moves it to the capped memory), and a
+        # connection that is closed takes no new streams at all
+        sb0 = obs.get('snap_before') or {}
+        idle = sorted(k for k, v in (sa.get('streams') or {}).items() if v[0] == 'IDLE' and k not in (sb0.get('streams') or {}))
+        if idle:
+            out.append(fail('idle-stream-left-in-the-table', i, streams=idle[:6], state=sa.get('state')))
+            break
+        if sb0.get('state') == 'CLOSED' and len(sa.get('streams') or {}) > len(sb0.get('streams') or {}):
+            out.append(fail('closed-connection-took-a-new-stream', i, before=len(sb0['streams']), after=len(sa['streams'])))
+            break
         c = conn_of(op)
         data = obs.get('xfer_data') if op['op'] == 'xfer' else op['data']
         before, after = obs['snap_before'], obs['snap_after']
@@ -2421,6 +2440,27 @@ def oracle_C22(run):
                     if not is_protocol_error(obs):
                         out.append(fail('push-promise-accepted-with-push-disabled', i, got=obs['res']))
                         continue
+                # the other direction: while the client allows push (the value in force: a change of ENABLE_PUSH takes
+                # effect with its acknowledgement, not when it is sent), a plainly valid promise — on a request of ours
+                # that is open or half-closed (local), a fresh even id, a block the decoder accepts and the rule book has
+                # nothing against — is reported, not refused
+                try:
+                    d = wire.decode_frame(f)
+                except wire.WireError:
+                    d = None
+                pst = sb['streams'].get(f['sid'])
+                recs = obs.get('dec_recs') or []
+                if d is not None and sb['local'].get(2, [None])[0] == 1 and sb['state'] == 'CLIENT_OPEN' and f['sid'] % 2 == 1 \
+                        and pst is not None and pst[0] in ('OPEN', 'HALF_CLOSED_LOCAL') and pst[1] is None \
+                        and d.get('promised') is not None and d['promised'] % 2 == 0 and d['promised'] > sb['hi_in'] and d['promised'] > 0 \
+                        and len(f['payload']) <= sb['max_in'] and len(recs) == 1 and recs[0]['res'][0] == 'ok':
+                    import rulebook
+                    hs = [(bytes(h[0]), bytes(h[1])) for h in recs[0]['res'][1]]
+                    if rulebook.block_problem(hs, 'request') is None and sum(len(n) + len(v) + 32 for n, v in hs) < 60000:
+                        if res(obs)[0] != 'ok' or len(evs) != 1:
+                            out.append(fail('valid-promise-not-reported', i, got=obs['res'], events=ev_kinds(obs), parent=pst[0],
+                                            promised=d['promised']))
+                            continue
                 if evs:
                     e = evs[0]
                     pl = f['payload'][1:] if f['flags'] & 8 else f['payload']
